@@ -310,7 +310,84 @@ def default_dir_scenario():
             out.append(('TestChain (default directory): value differs from the real chain once the chain object is gone', f'helper {got}, real chain {real}'))
     except Exception as e:  # noqa
         out.append(('TestChain (default directory) fails once the chain object is gone', f'{type(e).__name__}: {str(e)[:200]}'))
-    out += several_helpers_scenario() + callable_mock_scenario() + renamed_and_mutable_defaults_scenario()
+    out += several_helpers_scenario() + callable_mock_scenario() + renamed_and_mutable_defaults_scenario() + force_and_homonym_scenario()
+    return out
+
+
+def force_and_homonym_scenario():
+    """(a) forcing through a TestChain whose upstream is mocked - by name, with recompute - behaves as in the real chain (the mock stays what it is,
+    the real tasks downstream run again); (b) the task under test lives in a group and a mocked input has its plain name"""
+    from taskchain import Config, Parameter, Task
+    from taskchain.utils.testing import TestChain, create_test_task
+
+    runs = []
+
+    class Up(Task):
+        def run(self) -> int:
+            runs.append('up')
+            return 3
+
+    class Mid(Task):
+        class Meta:
+            input_tasks = [Up]
+
+        def run(self, up) -> int:
+            runs.append('mid')
+            return up * 2
+
+    class Top(Task):
+        class Meta:
+            input_tasks = [Mid]
+            parameters = [Parameter('k', default=1)]
+
+        def run(self, mid, k) -> int:
+            runs.append('top')
+            return mid + k
+
+    class Users(Task):
+        def run(self) -> list:
+            return ['u1', 'u2']
+
+    class UserFeatures(Task):
+        class Meta:
+            name = 'users'
+            task_group = 'features'
+            input_tasks = ['users']
+
+        def run(self, users) -> int:
+            return len(users)
+
+    out = []
+    try:
+        base = scratch.fresh('c19f')
+        real = Config(Path(base) / 'real', name='r', data={'tasks': [Up, Mid, Top]}).chain()
+        want0 = real['top'].value
+        del runs[:]
+        real.force('up', recompute=True)
+        want_runs = sorted(runs)
+        want1 = real['top'].value
+        tc = TestChain([Mid, Top], mock_tasks={'up': 3})
+        got0 = tc['top'].value
+        del runs[:]
+        err = None
+        try:
+            tc.force('up', recompute=True)
+        except Exception as e:  # noqa
+            err = f'{type(e).__name__}: {e}'
+        got_runs = sorted(runs)
+        got1 = tc['top'].value if err is None else None
+        if err is not None or (got0, got1) != (want0, want1) or got_runs != [r for r in want_runs if r != 'up']:
+            out.append(('forcing a mocked upstream with recompute does not behave as in the real chain', f'real chain: values {want0}/{want1}, recomputed {want_runs}; helper: values {got0}/{got1}, recomputed {got_runs}, error {err}'))
+        # (b)
+        realb = Config(Path(base) / 'realb', name='r', data={'tasks': [Users, UserFeatures]}).chain()
+        wantb = realb['features:users'].value
+        gotb = create_test_task(UserFeatures, input_tasks={'users': ['u1', 'u2']}).value
+        gotc = create_test_task(UserFeatures, input_tasks={Users: ['u1', 'u2']}).value
+        if gotb != wantb or gotc != wantb:
+            out.append(('create_test_task hands out the mocked input instead of the grouped task of the same plain name', f'real chain {wantb}, helper (mock by name) {gotb!r}, (mock by class) {gotc!r}'))
+        scratch.drop(base)
+    except Exception as e:  # noqa
+        out.append(('forcing / homonym scenario fails', f'{type(e).__name__}: {str(e)[:200]}'))
     return out
 
 
